@@ -1,7 +1,7 @@
 ----------------------------- MODULE Trace_Extras -----------------------------
 (* Trace validation for the behaviour specified in module Extras (not one of   *)
 (* the listed properties).                                                     *)
-EXTENDS Extras, Json, IOUtils
+EXTENDS Extras, AV, Json, IOUtils
 Trace == ndJsonDeserialize(IOEnv.VERIF_TRACE)
 N == Len(Trace)
 VARIABLES l, bad, mach
@@ -24,6 +24,14 @@ EventOK(e) ==
       [] e.kind = "inline" -> /\ ~e.panic /\ e.ok
                               /\ {e.keys[i] : i \in 1..Len(e.keys)} = MarshalKeys(e.outline, e.inline, {e.skipped[i] : i \in 1..Len(e.skipped)})
                               /\ \A i \in 1..Len(e.pairs) : e.pairs[i][2] = MarshalValue(e.outline, e.inline, e.pairs[i][1])
+      \* ToMapRecursive: same data with the order forgotten, no ordered map left anywhere, the source untouched
+      [] e.kind = "tomaprec" -> ~e.panic /\ EqUnord(e.out, e.in) /\ e.noordered /\ EqOrd(e.inafter, e.in)
+      \* AssertValues[string]: succeeds exactly when every value is a string; then the same pairs in the same order
+      [] e.kind = "assertvalues" -> /\ ~e.panic
+                                    /\ e.ok = (\A i \in 1..Len(e.in.kv) : e.in.kv[i][2].t = "s")
+                                    /\ (e.ok => EqOrd(e.out, e.in))
+      [] e.kind = "scalarstep" -> /\ ~e.panic /\ ~e.harderr
+                                  /\ e.steptype = ScalarStepType(e.s) /\ e.warned = ScalarStepWarns(e.s) /\ e.scalar = e.s
       [] OTHER -> FALSE
 Init == l = 1 /\ bad = {} /\ mach = {}
 Next == /\ l <= N
